@@ -55,7 +55,12 @@ func runC04(w *mc.Worker) {
 		if m.Err != "" || len(m.Stmts) == 0 {
 			return false
 		}
-		return m.Stmts[0].Contributors >= 2 || m.Stmts[0].CapBinding
+		for _, st := range m.Stmts {
+			if st.Contributors >= 2 || st.CapBinding {
+				return true
+			}
+		}
+		return false
 	}
 	dst := &DstCfg{Asset: "USD", Accts: ws(0, "x"), WKept: -1, WVar: -1, WInorder: -1, WAllot: -1}
 	balQ := []*big.Int{bi(0), bi(1), bi(3), bi(6), bi(-2)}
